@@ -16,47 +16,111 @@
               cur = fetch_or(deps, new) | new;                     MaskFetchOr
               return (cur & goal) == goal;
 
-   The task class is described by Flows (what ptgpp would generate), a sequence of [k |-> kind, g |-> n]:
-     "T"  data flow fed by a task                       1 input
-     "C"  data flow read from a data collection          0 inputs   (IN-from-collection)
-     "Q1" data flow  cond ? task : collection, cond true 1 input
-     "Q0" same, cond false                               0 inputs   (IN-from-collection)
-     "K"  control flow, unconditional                    1 input
-     "K1" control flow, guard true                       1 input
-     "X"  control flow, guard false                      0 inputs
-     "G"  control gather of g controls (counter only)    g inputs
+   The task class is described by Flows, what the JDF says about the input side of every flow (the same list the
+   harness turns into parsec_flow_t / parsec_dep_t exactly as parsec-ptgpp does), a sequence of
+       [ctl |-> BOOLEAN, deps |-> << [g |-> guard, src |-> source, n |-> gather count], ... >>]
+   deps = the `<-` lines of the flow IN ORDER (ptgpp fills flow->dep_in[] in that order; `c ? x : y` = two
+   entries with guards c and !c).
+     guard   "-" absent (dep->cond == NULL)   "1" / "0" an expression that is true / false
+             "p" / "z" an expression over the parameters of the instance: k > 0 / k = 0   (K = the instance)
+     source  "t" a predecessor task     "c" a data collection     "n" NEW     "u" NULL
+             (c, n, u: dep->task_class_id == PARSEC_LOCAL_DATA_TASK_CLASS_ID); control flows only have "t"
+     n       > 0: control gather of n predecessors (dep->ctl_gather_nb), 0: none
+   Meaning (JDF): a DATA flow takes its value from the FIRST dep whose guard holds: it is a required input of the
+   instance iff that dep names a predecessor task (otherwise the data is there: IN-from-collection / NEW / NULL);
+   a data flow without input dep = WRITE flow with `<- NEW` (only a type declaration, no input).
+   A CONTROL flow expects one control per dep whose guard holds (n of them for a gather).
+   Need(f) below is that meaning; CheckInMask / CheckInCounter are the two walks of flow->dep_in[] in
+   parsec_check_IN_dependencies_with_mask / _with_counter (continue / break structure, flags tested); that they
+   compute the same thing is part of what TLC checks (refinement).
+   Legacy one-word kinds used by checks/C07.py:  T = D:-t   C = D:-c   Q1 = D:1t,0c   Q0 = D:0t,1c   K = K:-t
+   K1 = K:1t   X = K:0t   G<n> = K:-t<n>   W = D: (no dep).
    Thread t performs the releases Prog[t] = << [f |-> flow, i |-> input id], ... >> one after the other.
 
    FuseBegin = TRUE merges the purely local segment Begin into the following read (partial-order reduction used
    for the 4-thread schedules: the check re-inserts the Begin step right before the read when replaying).
-   Mut # "none" seeds a defect in the model (sensitivity self-test of the invariants).
+   Mut # "none" seeds a defect in the model (sensitivity self-test of the invariants): "goal" (CAS 0->goal),
+   "store" (CAS replaced by a store), "noin" (no IN-from-collection bits), "scanon" (the scan of dep_in[] goes on
+   after a selected task dep: a later collection dep whose guard holds pre-sets the bit).
 
    released / readyCount are the abstract state of Ready.tla, updated at the linearization point (the
    successful CAS, the fetch_dec, the fetch_or).  Refinement of Ready = PROPERTY Refines (+ invariants). *)
 EXTENDS Naturals, Integers, Sequences, FiniteSets, TLC
-CONSTANTS Mode, Flows, Thr, Prog, Mut, FuseBegin
+CONSTANTS Mode, Flows, K, NeedExpected, Thr, Prog, Mut, FuseBegin
 VARIABLES cnt, mask, pc, opi, loc, ret, released, readyCount
 vars == <<cnt, mask, pc, opi, loc, ret, released, readyCount>>
 
 FlowIx == 1..Len(Flows)
-Need(f) == CASE Flows[f].k \in {"T", "Q1", "K", "K1"} -> 1
-             [] Flows[f].k \in {"C", "Q0", "X"} -> 0
-             [] Flows[f].k = "G" -> Flows[f].g
+Deps(f) == Flows[f].deps
+DepIx(f) == 1..Len(Deps(f))
+Holds(g) == CASE g \in {"-", "1"} -> TRUE
+              [] g = "0" -> FALSE
+              [] g = "p" -> K > 0
+              [] g = "z" -> K = 0
+Cnt(d) == IF d.n = 0 THEN 1 ELSE d.n
+
+\* ------------------------------------------------------------- what the JDF means (see above)
+HoldingDeps(f) == {j \in DepIx(f) : Holds(Deps(f)[j].g)}
+FirstHolding(f) == CHOOSE j \in HoldingDeps(f) : \A i \in HoldingDeps(f) : j <= i
+RECURSIVE SumCnt(_, _)
+SumCnt(f, j) == IF j = 0 THEN 0 ELSE (IF Holds(Deps(f)[j].g) THEN Cnt(Deps(f)[j]) ELSE 0) + SumCnt(f, j - 1)
+Need(f) == IF Flows[f].ctl THEN SumCnt(f, Len(Deps(f)))
+           ELSE IF HoldingDeps(f) # {} /\ Deps(f)[FirstHolding(f)].src = "t" THEN 1 ELSE 0
 RECURSIVE SumNeed(_)
 SumNeed(n) == IF n = 0 THEN 0 ELSE Need(n) + SumNeed(n - 1)
 NInputs == SumNeed(Len(Flows))
 AllInputs == 1..NInputs
 
-\* flags ptgpp sets on the task class
-HasInIn == \E f \in FlowIx : Flows[f].k \in {"C", "Q0", "Q1", "X", "K1"}     \* PARSEC_HAS_IN_IN_DEPENDENCIES
-HasGather == \E f \in FlowIx : Flows[f].k = "G"                              \* PARSEC_HAS_CTL_GATHER
-\* parsec_check_IN_dependencies_with_counter: tc->dependencies_goal (= number of flows with an input
-\* dependency) when neither flag is set, else the per-instance count
-CheckInCounter == IF ~HasInIn /\ ~HasGather THEN Len(Flows) ELSE NInputs
-\* parsec_check_IN_dependencies_with_mask: bits of the flows that need no release
-CheckInMask == IF Mut = "noin" \/ ~HasInIn THEN {} ELSE {f \in FlowIx : Flows[f].k \in {"C", "Q0", "X"}}
-GoalMask == FlowIx                        \* tc->dependencies_goal in mask mode: every flow with an input dependency
+\* well-formed scenarios: a data flow with input deps always has one whose guard holds ("it is assumed that in
+\* the data case, one input will always become true", parsec.c); a mask cannot count: no gather, at most one
+\* control per control flow; the check computed the same number of required inputs (it is the N of ReadyTrace)
+ASSUME \A f \in FlowIx : ~Flows[f].ctl /\ Deps(f) # <<>> => HoldingDeps(f) # {}
+ASSUME \A f \in FlowIx : Flows[f].ctl => Deps(f) # <<>> /\ \A j \in DepIx(f) : Deps(f)[j].src = "t"
+ASSUME \A f \in FlowIx : ~Flows[f].ctl => \A j \in DepIx(f) : Deps(f)[j].n = 0
+ASSUME Mode = "mask" => \A f \in FlowIx : Flows[f].ctl => Need(f) <= 1 /\ \A j \in DepIx(f) : Deps(f)[j].n = 0
+ASSUME NInputs = NeedExpected
+ASSUME \A t \in Thr : \A o \in 1..Len(Prog[t]) : Prog[t][o].f \in FlowIx /\ Need(Prog[t][o].f) > 0 /\ Prog[t][o].i \in AllInputs
+
+\* ------------------------------------------------------------- what ptgpp generates (jdf2c.c, jdf_generate_one_function)
+\* PARSEC_FLOW_HAS_IN_DEPS: data flow with a dep that does not name a task (or the WRITE <- NEW declaration);
+\* control flow with a guarded dep
+HasInDeps(f) == IF Flows[f].ctl THEN \E j \in DepIx(f) : Deps(f)[j].g # "-"
+                ELSE Deps(f) = <<>> \/ \E j \in DepIx(f) : Deps(f)[j].src # "t"
+HasInIn == \E f \in FlowIx : HasInDeps(f)                                    \* PARSEC_HAS_IN_IN_DEPENDENCIES
+HasGather == \E f \in FlowIx : \E j \in DepIx(f) : Deps(f)[j].n > 0           \* PARSEC_HAS_CTL_GATHER
+GoalMask == FlowIx                        \* tc->dependencies_goal, mask mode: every flow with an input dep (all of them)
+GoalCount == Len(Flows)                   \* tc->dependencies_goal, counter mode: their number
 INDONE == 0                               \* PARSEC_DEPENDENCIES_IN_DONE (flow f = bit f)
+
+\* ------------------------------------------------------------- the walks of flow->dep_in[] in parsec.c
+\* data flow, both functions:  for j: if( cond && !cond() ) continue;  <test task_class_id>;  break;
+\* MaskData(f, j): `active` of the mask walk started at dep j: the bit is pre-set iff the FIRST dep whose guard
+\* holds is not a task.  Mut = "scanon" is the walk with the break inside the `if( LOCAL_DATA == task_class_id )`.
+RECURSIVE MaskData(_, _)
+MaskData(f, j) == IF j > Len(Deps(f)) THEN FALSE
+                  ELSE IF ~Holds(Deps(f)[j].g) THEN MaskData(f, j + 1)
+                  ELSE IF Deps(f)[j].src # "t" THEN TRUE
+                  ELSE IF Mut = "scanon" THEN MaskData(f, j + 1) ELSE FALSE
+\* control flow, mask: active unless one dep has no cond or a true one
+MaskCtl(f) == ~\E j \in DepIx(f) : Holds(Deps(f)[j].g)
+MaskActive(f) == IF Flows[f].ctl THEN MaskCtl(f)
+                 ELSE /\ HasInDeps(f)                                   \* if( !(flow_flags & HAS_IN_DEPS) ) continue;
+                      /\ (Deps(f) = <<>> \/ MaskData(f, 1))             \* NULL == dep_in[0]: WRITE flow typed by <- NEW
+\* parsec_check_IN_dependencies_with_mask: bits of the flows that need no release
+CheckInMask == IF Mut = "noin" \/ ~HasInIn THEN {} ELSE {f \in FlowIx : MaskActive(f)}
+
+\* counter walk, data flow: first dep whose guard holds: active++ iff it is a task; break
+RECURSIVE CtrData(_, _)
+CtrData(f, j) == IF j > Len(Deps(f)) THEN 0
+                 ELSE IF ~Holds(Deps(f)[j].g) THEN CtrData(f, j + 1)
+                 ELSE IF Deps(f)[j].src = "t" THEN 1 ELSE 0
+\* counter walk, control flow: every dep without cond or with a true one counts (ctl_gather_nb if there is one)
+CtrActive(f) == IF Flows[f].ctl THEN SumCnt(f, Len(Deps(f))) ELSE CtrData(f, 1)
+RECURSIVE SumCtr(_)
+SumCtr(n) == IF n = 0 THEN 0 ELSE CtrActive(n) + SumCtr(n - 1)
+\* parsec_check_IN_dependencies_with_counter: tc->dependencies_goal when neither flag is set, else the
+\* per-instance count
+CheckInCounter == IF ~HasInIn /\ ~HasGather THEN GoalCount ELSE SumCtr(Len(Flows))
 
 CurOp(t) == Prog[t][opi[t]]
 HasOp(t) == opi[t] <= Len(Prog[t])
